@@ -365,3 +365,89 @@ func extractC10RespBody(c *Ctx) {
 	c.Add("c10RespTranscodeCalls", "List String", LeanStrList(calls), tsrc, "traverseFieldPath / marshal-callback calls of standardResponseTranscoder.transcodeFunc")
 	c.Add("c10RespTranscodeAssigns", "List (String × Nat)", fmt.Sprintf("[(\"fd\", %d), (\"msg\", %d)]", counts["fd"], counts["msg"]), tsrc, "assignments to msg / fd in transcodeFunc")
 }
+
+func init() { register("c10marshaler", extractC10Marshaler) }
+
+// Facts about the statelessness of JSONMarshaler (transcoding/json.go), round 5 follow-up:
+//   - c10MarshalOptsInit: the statement(s) of JSONMarshaler.Marshal that define `opts` ("opts := m.MarshalOptions": a
+//     copy of the struct by value) and the assignments to a `.Resolver` there, as (lhs, rhs) source text;
+//   - c10MarshalerSelfWrites: every assignment / inc-dec statement in a method with a *JSONMarshaler receiver whose
+//     left-hand side is rooted at the receiver ("Method:lhs") — the marshaler is never written after construction;
+//   - c10MarshalerSelfAddrs: every address-of expression rooted at the receiver in those methods ("Method:&expr") — no
+//     pointer into the shared struct escapes (a per-call resolver could be written through it).
+func extractC10Marshaler(c *Ctx) {
+	const file = "transcoding/json.go"
+	var inits [][2]string
+	var writes, addrs []string
+	f := c.File(file)
+	if f != nil {
+		rootIdent := func(e ast.Expr) string {
+			for {
+				switch x := e.(type) {
+				case *ast.SelectorExpr:
+					e = x.X
+				case *ast.IndexExpr:
+					e = x.X
+				case *ast.StarExpr:
+					e = x.X
+				case *ast.ParenExpr:
+					e = x.X
+				case *ast.Ident:
+					return x.Name
+				default:
+					return ""
+				}
+			}
+		}
+		for _, d := range f.Decls {
+			fd, ok := d.(*ast.FuncDecl)
+			if !ok || fd.Recv == nil || len(fd.Recv.List) != 1 || len(fd.Recv.List[0].Names) != 1 || fd.Body == nil {
+				continue
+			}
+			st, ok := fd.Recv.List[0].Type.(*ast.StarExpr)
+			if !ok {
+				continue
+			}
+			if id, ok := st.X.(*ast.Ident); !ok || id.Name != "JSONMarshaler" {
+				continue
+			}
+			recv := fd.Recv.List[0].Names[0].Name
+			ast.Inspect(fd.Body, func(n ast.Node) bool {
+				switch x := n.(type) {
+				case *ast.AssignStmt:
+					for i, l := range x.Lhs {
+						if _, isIdent := l.(*ast.Ident); !isIdent && rootIdent(l) == recv {
+							writes = append(writes, fd.Name.Name+":"+c.Src(l))
+						}
+						if fd.Name.Name == "Marshal" && i < len(x.Rhs) {
+							ls := c.Src(l)
+							if ls == "opts" || strings.HasSuffix(ls, ".Resolver") {
+								inits = append(inits, [2]string{ls, c.Src(x.Rhs[i])})
+							}
+						}
+					}
+				case *ast.IncDecStmt:
+					if rootIdent(x.X) == recv {
+						writes = append(writes, fd.Name.Name+":"+c.Src(x.X))
+					}
+				case *ast.UnaryExpr:
+					if x.Op == token.AND && rootIdent(x.X) == recv {
+						if _, isIdent := x.X.(*ast.Ident); !isIdent {
+							addrs = append(addrs, fd.Name.Name+":"+c.Src(x))
+						}
+					}
+				}
+				return true
+			})
+		}
+	}
+	parts := make([]string, len(inits))
+	for i, p := range inits {
+		parts[i] = "(" + LeanStr(p[0]) + ", " + LeanStr(p[1]) + ")"
+	}
+	c.Add("c10MarshalOptsInit", "List (String × String)", "["+strings.Join(parts, ", ")+"]", file, "definition of opts and assignments to .Resolver in JSONMarshaler.Marshal")
+	sortStrings(writes)
+	sortStrings(addrs)
+	c.Add("c10MarshalerSelfWrites", "List String", LeanStrList(writes), file, "assignments rooted at the receiver in methods of *JSONMarshaler")
+	c.Add("c10MarshalerSelfAddrs", "List String", LeanStrList(addrs), file, "address-of expressions rooted at the receiver in methods of *JSONMarshaler")
+}
